@@ -191,7 +191,11 @@ def _run_batteries(res, cases, repo):
             continue
         seen.add(call["target"])
         t1 = time.time()
-        out = rp.run_call(repo, call)
+        out = rp.run_call(repo, call, timeout=300)
+        if out.get("kind") == "timeout":
+            # the battery drives the real code through a fixed, small set of calls (seconds); not finishing in 300 s is a call that does
+            # not terminate (C07: "no call fails to terminate")
+            out = {"kind": "return", "value": "the battery did not finish within %d s: a call on the real code does not terminate" % out["seconds"]}
         ok = out.get("kind") == "return" and out.get("value") is True
         if out.get("kind") == "raise" and "/gfapy/" in str(out.get("raised_in")) and "/bounded/" not in str(out.get("raised_in")):
             out = {"kind": "return", "value": "the battery was stopped by %s raised in %s: %s" % (out.get("exc"), out.get("raised_in"), out.get("msg"))}
